@@ -53,6 +53,9 @@ pub fn make_case(seed: u64, tier: Tier, idx: u64, scope: &SmallScope) -> Case {
     };
     let mut model = model_from_cfg(&cfg, &force);
     assign_random_shapes(&mut model, &mut rng, 0.5);
+    if rng.chance(0.5) {
+        shuffle_names(&mut model, &mut rng);
+    }
     model.start_pos = rng.below(model.nts.len() + 1);
     model.term_pos = rng.below(model.nts.len() + 1);
     let src = model.render();
